@@ -104,12 +104,16 @@ def make_providers(schedule, rc=None, fc=None, hints=None, packages=None, fc_fun
         edifact_format_version = sut.VER
 
     fc_keys = sorted(set(fc) | set(getattr(fc_function, "keys", ())))
+    shared_unfulfilled = {key: EvaluatedFormatConstraint(False, None) for key in fc_keys}
     for key in fc_keys:
 
         async def check(self, entered_input, key=key):  # pylint:disable=unused-argument
             if fc_function is not None:
                 await schedule.pause(("fc", key, entered_input))
                 ok, message = fc_function(key, entered_input)
+                if not ok and message is None:
+                    # a user method may well return one shared constant for "unfulfilled, no message of my own"
+                    return shared_unfulfilled[key]
             else:
                 await schedule.pause(("fc", key, fc[key]))
                 ok, message = fc[key], (None if fc[key] else f"E{key}")
